@@ -546,7 +546,7 @@ SUB_COLS = ('age', 'gpa', 'course')
 def _sub(via, read_gpa, L, which, c):
     """Student[2] (a subclass row of the Person table) becomes known through: via 0 a query over the BASE entity whose condition
     uses the subclass attribute gpa; 1 the same condition in a query over Student; 2 a query over Person on the base attribute
-    age; 3 Person.get(id=2).  read_gpa: obj.gpa is also read through the descriptor.  Then the row is re-fetched with column
+    age; 3 Person.get(id=2); 4-8 keyword filters (select(age=..), select(gpa=..), filter(age=..), where(age=..), get(gpa=..)).  read_gpa: obj.gpa is also read through the descriptor.  Then the row is re-fetched with column
     SUB_COLS[which] = c.  An attribute used by the condition of the query that returned the object counts as observed (pony's
     own rule: EntityMeta._set_rbits for the attributes a query used)."""
     from pony.orm import db_session
@@ -575,7 +575,12 @@ def _sub(via, read_gpa, L, which, c):
             if via == 0: objs = _q_base_sub(Person)
             elif via == 1: objs = _q_sub_sub(Student)
             elif via == 2: objs = _q_base_base(Person)
-            else: objs = [Person.get(id=2)]
+            elif via == 3: objs = [Person.get(id=2)]
+            elif via == 4: objs = Person.select(age=L[0])[:]                      # keyword filters: the condition attribute is observed
+            elif via == 5: objs = Student.select(gpa=L[1])[:]
+            elif via == 6: objs = Person.select().filter(age=L[0])[:]
+            elif via == 7: objs = Person.select(lambda p: p.id > 0).where(age=L[0])[:]
+            else: objs = [Student.get(gpa=L[1])]
             obj = objs[0]
             if read_gpa: obj.gpa
             before = {n: obj._vals_[getattr(Student, n)] for n in SUB_COLS}
@@ -590,7 +595,7 @@ def _sub(via, read_gpa, L, which, c):
         return ok(False)
     if type(obj) is not Student: why.append('row of class Student loaded as another class')
     if exc is not None and not isinstance(exc, UnrepeatableReadError): why.append('T0: %s' % _exc(exc))
-    observed = {'age': via == 2, 'gpa': read_gpa or via == 0 or via == 1, 'course': False}
+    observed = {'age': via in (2, 4, 6, 7), 'gpa': read_gpa or via in (0, 1, 5, 8), 'course': False}
     if _eq(row1[changed], row2[changed]) and exc is not None: why.append('T3: unchanged row raised %s' % _exc(exc))
     if exc is None:
         for n in SUB_COLS:
@@ -610,10 +615,20 @@ def sub_query_read(via: int, read_gpa: bool, L: Tuple[int, int, int], which: int
     return _sub(via, read_gpa, L, which, c)
 
 
+def kw_query_read(via: int, read_gpa: bool, which: int, c: int) -> bool:
+    """
+    pre: 4 <= via <= 8 and 0 <= which <= 2
+    pre: LO <= c <= HI
+    post: _
+    """
+    # the loaded row is concrete here: its values are handed to the query as keyword-filter parameters (converter C code)
+    return _sub(via, read_gpa, (3, 6, 2), which, c)
+
+
 RELOAD = ['reload_a', 'reload_a_locked', 'reload_f', 'reload_f_noflush', 'reload_x', 'reload_v', 'reload_n', 'reload_n_noflush', 'reload_g', 'reload_g_noflush', 'reload_g_pending',
           'reload_two', 'reload_two_noflush']
 LINKS = ['o2o_relink_tracked', 'o2o_relink_untracked', 'o2o_none_then_linked']
-HARNESSES = RELOAD + LINKS + ['sub_query_read']
+HARNESSES = RELOAD + LINKS + ['sub_query_read', 'kw_query_read']
 
 
 def explain(fn, **kw):
